@@ -3,12 +3,13 @@
 // prints, after every operation, what the call returned and the reachable state.
 //
 // kind est   meta: lin, circ
-//   word ops  e2 | e5 | m:<method> | w:<int> | c | mv | ma   (operation k = k-th token, 0-based;
-//                                                            mv / ma = move-construct / move-assign, go on with the target)
+//   word ops  e2 | e5 | m:<method> | w:<int> | c | mv | ma | vg   (operation k = k-th token, 0-based;
+//                                                            mv / ma = move-construct / move-assign, go on with the target;
+//                                                            vg = into a std::vector that then grows (reallocation moves it) and out again)
 //   mat P<k> (lin+circ) x N, mat W<k> N x 1              (operands of an extract at position k)
 //   mat PW<k> M x 1, mat L<k> N x 1, mat T<k> N x M      (additionally for e5)
 // kind hb    meta: d
-//   word ops  a | s:<int> | d | i | c | mv | ma          mat X<k> d x 1 for an add at position k
+//   word ops  a | s:<int> | d | i | c | mv | ma | vg     mat X<k> d x 1 for an add at position k
 //
 // The protected members (hist_buffer_, the three cached weight vectors, the method) are
 // reached by subclassing; nothing is redefined.
@@ -19,6 +20,7 @@
 #include <csignal>
 #include <memory>
 #include <unistd.h>
+#include <vector>
 
 // On a fatal signal (e.g. pop_back on an empty deque) name the API call that was running.
 // Not installed under the sanitizers: their own report is the better one.
@@ -74,15 +76,41 @@ static void run_est(const vf::Case& c) {
     const long lin = c.mi("lin"), circ = c.mi("circ");
     std::unique_ptr<Probe> holder(new Probe(lin, circ));
     const std::vector<std::string>& ops = c.word("ops");
+    // meta twin=1: an independent object of the same shapes lives next to the subject; before every extract of the
+    // subject it runs, with ANOTHER window, ANOTHER method and other data (the subject's operands with the columns
+    // rotated and shifted), an extract of its own.  Nothing of the subject may change (state shared between objects:
+    // function-local statics, weight caches keyed by the length alone).  The twin's results are not printed.
+    const bool with_twin = c.mi("twin", 0) != 0;
+    Probe twin(lin, circ);
+    if (with_twin) twin.setMobileAverageWindowSize(7);
     vf::out_begin(c.id);
     for (std::size_t k = 0; k < ops.size(); k++) {
         const std::string& o = ops[k];
         const std::string ks = std::to_string(k);
-        if (o == "mv" || o == "ma") {
+        if (with_twin && (o == "e2" || o == "e5")) {
+            vf::Entry e("EstimatesExtraction::extract/twin");
+            const MatrixXd& P = c.mat("P" + ks);
+            const VectorXd W = c.mat("W" + ks).col(0);
+            MatrixXd P2 = vf::rotate_cols(P, 1).array() + 0.75;
+            twin.setMethod(METHOD_VALUES[(k * 5 + 1) % 8]);
+            if (k % 3 == 2) twin.setMobileAverageWindowSize(2 + static_cast<int>(k % 5));
+            (void)twin.extract(P2, W);
+        }
+        if (o == "mv" || o == "ma" || o == "vg") {
             // move construction / move assignment: go on with the TARGET; the moved-from source is only asked
             // for its window (0 by HistoryBuffer.cpp:24/35) and then destroyed
             std::unique_ptr<Probe> target;
-            if (o == "mv") {
+            if (o == "vg") {
+                // std::vector growth: the element is move-constructed into the vector, moved again by every reallocation
+                // (the move constructor is noexcept) next to fresh neighbours, and moved out at the end
+                vf::Entry e("std::vector<EstimatesExtraction>::emplace_back");
+                std::vector<Probe> v;
+                v.reserve(1);
+                v.emplace_back(std::move(*holder));
+                for (int j = 0; j < 5; j++) v.emplace_back(lin + j, circ);
+                target.reset(new Probe(std::move(v[0])));
+                holder.reset(new Probe(std::move(v[0])));      // a second move from the (now moved-from) element: window 0
+            } else if (o == "mv") {
                 vf::Entry e("EstimatesExtraction::EstimatesExtraction(&&)");
                 target.reset(new Probe(std::move(*holder)));
             } else {
@@ -95,7 +123,7 @@ static void run_est(const vf::Case& c) {
             holder = std::move(target);
         }
         Probe& ee = *holder;
-        if (o == "mv" || o == "ma") {
+        if (o == "mv" || o == "ma" || o == "vg") {
         } else if (o == "e2" || o == "e5") {
             const MatrixXd& P = c.mat("P" + ks);
             const VectorXd W = c.mat("W" + ks).col(0);
@@ -167,9 +195,17 @@ static void run_hb(const vf::Case& c) {
     for (std::size_t k = 0; k < ops.size(); k++) {
         const std::string& o = ops[k];
         const std::string ks = std::to_string(k);
-        if (o == "mv" || o == "ma") {
+        if (o == "mv" || o == "ma" || o == "vg") {
             std::unique_ptr<HistoryBuffer> target;
-            if (o == "mv") {
+            if (o == "vg") {
+                vf::Entry e("std::vector<HistoryBuffer>::emplace_back");
+                std::vector<HistoryBuffer> v;
+                v.reserve(1);
+                v.emplace_back(std::move(*hholder));
+                for (int j = 0; j < 5; j++) v.emplace_back(d + j);
+                target.reset(new HistoryBuffer(std::move(v[0])));
+                hholder.reset(new HistoryBuffer(std::move(v[0])));
+            } else if (o == "mv") {
                 vf::Entry e("HistoryBuffer::HistoryBuffer(&&)");
                 target.reset(new HistoryBuffer(std::move(*hholder)));
             } else {
@@ -182,7 +218,7 @@ static void run_hb(const vf::Case& c) {
             hholder = std::move(target);
         }
         HistoryBuffer& hb = *hholder;
-        if (o == "mv" || o == "ma") {
+        if (o == "mv" || o == "ma" || o == "vg") {
         } else if (o == "a") {
             const VectorXd x = c.mat("X" + ks).col(0);
             vf::Entry e("HistoryBuffer::addElement");
